@@ -153,7 +153,7 @@ attribute [keepsAuth] popVal_pre
 @[keepsAuth] theorem saOf_a (p) : Keeps PreAuth (saOf p) := by unfold saOf; keeps_a
 @[keepsAuth] theorem keOf_a (p) : Keeps PreAuth (keOf p) := by unfold keOf; keeps_a
 @[keepsAuth] theorem nonceOf_a (p) : Keeps PreAuth (nonceOf p) := by unfold nonceOf; keeps_a
-@[keepsAuth] theorem tsOf_a (p) : Keeps PreAuth (tsOf p) := by unfold tsOf; keeps_a
+@[keepsAuth] theorem tsBodyOf_a (p) : Keeps PreAuth (tsBodyOf p) := by unfold tsBodyOf; keeps_a
 @[keepsAuth] theorem idOf_a (p) : Keeps PreAuth (idOf p) := by unfold idOf; keeps_a
 @[keepsAuth] theorem abortOnErrorNotifies_a (m e i) : Keeps PreAuth (abortOnErrorNotifies m e i) := by
   unfold abortOnErrorNotifies; keeps_a
